@@ -24,7 +24,7 @@ RELATION = ('heap model (Heap.step): analyses only read; the real history must s
             '(theorems C18.args_unchanged / repeatable / access_deterministic say this of the model)')
 PARTIAL = 'the theorem about the model is thin; the assurance is the history differential'
 TRUSTED = ['snapshot comparison of numpy buffers; generator reseeding through random.seed, np.random.seed and a jitted random.seed']
-DET = ['est', 'est_obj', 'its', 'its_obj', 'ck', 'ck_obj', 'coring', 'coring_obj', 'wt', 'paths', 'sim', 'shift', 'rename_idx', 'rename_pop', 'unique',
+DET = ['est_big', 'est', 'est_obj', 'its', 'its_obj', 'ck', 'ck_obj', 'coring', 'coring_obj', 'wt', 'paths', 'sim', 'shift', 'rename_idx', 'rename_pop', 'unique',
        'eigl', 'peq', 'erg', 'mask', 'rownorm', 'matpow', 'gauss', 'rmean']
 RND = ['mcmc', 'mcmc_obj', 'msm_wt', 'msm_wt_obj', 'msm_paths_obj']
 
@@ -33,6 +33,7 @@ def cases(tier, rng, boost=1):
     # corpus: sampling on the shared object, then a deterministic model estimate at the same lag
     yield {'op': 'history', 'seed': 1, 'ops': [['msm_wt_obj', 1], ['est_obj', 2], ['seed', 3], ['mcmc_obj', 4], ['est_obj', 2], ['its_obj', 5]], 'src': 'corpus'}
     yield {'op': 'history', 'seed': 2, 'ops': [['ck', 1], ['its', 2], ['ck', 1], ['its', 2]], 'src': 'corpus'}
+    yield {'op': 'history', 'seed': 3, 'ops': [['est_big', 0], ['est_big', 0], ['seed', 5], ['est_big', 0], ['est_big', 0]], 'src': 'corpus'}
     n = {'quick': 60, 'thorough': 800, 'search': 200}[tier] * boost
     for _ in range(n):
         k = rng.randint(6, 14 if tier == 'quick' else 40)
@@ -120,12 +121,16 @@ def real(case):
         'old': [labs[0], labs[1]], 'new': [labs[1], labs[0]],
     }
     shared['obj'] = mh.StateTraj(shared['trajs'])
+    brng = core.Rng(99)
+    shared['big'] = [np.array([brng.randrange(3) for _ in range(25000)], dtype=np.int64) for _ in range(16)]   # 400k frames in 16 trajectories
     occ = sorted(set(labs))
     S, F = [occ[0]], [occ[-1]]
 
     def call(name, p):
         tr, obj = shared['trajs'], shared['obj']
         lag = 1 + p % 2
+        if name == 'est_big':
+            return mh.msm.estimate_markov_model(shared['big'], 1)
         if name == 'est':
             return mh.msm.estimate_markov_model(tr, lag)
         if name == 'est_obj':
